@@ -196,6 +196,67 @@ func w7scripts() []func() []string {
 			}
 			return v
 		},
+		func() (v []string) { // move into a NEVER-USED destination, refill the emptied source, read / edit the destination
+			// pcommon.Slice, top level
+			src, dst := pcommon.NewSlice(), pcommon.NewSlice()
+			src.AppendEmpty().SetStr("a")
+			src.AppendEmpty().SetStr("b")
+			src.MoveAndAppendTo(dst)
+			src.AppendEmpty().SetStr("x")
+			if w7raw(dst.AsRaw()) != "[a b]" {
+				v = append(v, "sig=C07/move/refilling-moved-from-slice-changed-destination kind=pcommon.Slice got="+w7raw(dst.AsRaw()))
+			}
+			dst.At(0).SetStr("d")
+			if w7raw(src.AsRaw()) != "[x]" {
+				v = append(v, "sig=C07/move/editing-destination-changed-moved-from-slice kind=pcommon.Slice got="+w7raw(src.AsRaw()))
+			}
+			// nested: a slice inside a map value, destination created by PutEmptySlice
+			m := pcommon.NewMap()
+			in := m.PutEmptySlice("in")
+			in.AppendEmpty().SetInt(1)
+			in.AppendEmpty().SetInt(2)
+			in.MoveAndAppendTo(m.PutEmptySlice("out"))
+			in.AppendEmpty().SetInt(9)
+			if ov, _ := m.Get("out"); w7raw(ov.Slice().AsRaw()) != "[1 2]" {
+				v = append(v, "sig=C07/move/refilling-moved-from-slice-changed-destination kind=nested-pcommon.Slice got="+w7raw(ov.Slice().AsRaw()))
+			}
+			// generated pointer slice
+			ls, ld := NewLogRecordSlice(), NewLogRecordSlice()
+			ls.AppendEmpty().SetSeverityText("a")
+			ls.AppendEmpty().SetSeverityText("b")
+			ls.MoveAndAppendTo(ld)
+			ls.AppendEmpty().SetSeverityText("x")
+			if ld.Len() != 2 || ld.At(0).SeverityText() != "a" || ld.At(1).SeverityText() != "b" {
+				v = append(v, "sig=C07/move/refilling-moved-from-slice-changed-destination kind=LogRecordSlice")
+			}
+			if cap(*ls.orig) > 0 && cap(*ld.orig) > 0 && &(*ls.orig)[:1][0] == &(*ld.orig)[:1][0] {
+				v = append(v, "sig=C07/move/source-and-destination-share-backing-array kind=LogRecordSlice")
+			}
+			// primitive slices and maps: MoveTo, then refill the source
+			us, ud := pcommon.NewUInt64Slice(), pcommon.NewUInt64Slice()
+			us.Append(1, 2, 3)
+			us.MoveTo(ud)
+			us.Append(9)
+			if w7raw(ud.AsRaw()) != "[1 2 3]" {
+				v = append(v, "sig=C07/move/refilling-moved-from-slice-changed-destination kind=UInt64Slice got="+w7raw(ud.AsRaw()))
+			}
+			bs, bd := pcommon.NewByteSlice(), pcommon.NewByteSlice()
+			bs.Append(1, 2, 3)
+			bs.MoveTo(bd)
+			bs.Append(9)
+			if w7raw(bd.AsRaw()) != "[1 2 3]" {
+				v = append(v, "sig=C07/move/refilling-moved-from-slice-changed-destination kind=ByteSlice got="+w7raw(bd.AsRaw()))
+			}
+			ms, md := pcommon.NewMap(), pcommon.NewMap()
+			ms.PutStr("a", "1")
+			ms.PutStr("b", "2")
+			ms.MoveTo(md)
+			ms.PutStr("c", "3")
+			if w7raw(md.AsRaw()) != "map[a:1 b:2]" {
+				v = append(v, "sig=C07/move/refilling-moved-from-map-changed-destination got="+w7raw(md.AsRaw()))
+			}
+			return v
+		},
 		func() (v []string) { // value slice (pmetric.ExemplarSlice): RemoveIf then CopyTo
 			dst, src := pmetric.NewExemplarSlice(), pmetric.NewExemplarSlice()
 			for i := 0; i < 3; i++ {
